@@ -221,8 +221,10 @@ type node struct {
 	clis   []net.Conn
 	roundC chan<- int
 	// clusterhold: as clusterpar, the commit of a round held back for [hold]
-	heldC chan<- server.VerifRound
-	hold  time.Duration
+	heldC   chan<- server.VerifRound
+	hold    time.Duration
+	slow    bool            // clusterhold: clients read only after the held commit was released
+	elapsed []time.Duration // per command of the last round: from sending it to having its reply
 	// clusternodes: two nodes sharing one log; connection c talks to node c%2
 	mgr2 *server.Manager
 }
@@ -344,13 +346,23 @@ func (n *node) execRound(round []parCmd) (wires [][]byte, status []string) {
 		wire []byte
 	}
 	done := make(chan result, len(round))
+	n.elapsed = make([]time.Duration, len(round))
+	// slow readers: the clients read their replies only after the held commit has been released
+	release := make(chan struct{})
+	slow := n.slow && n.heldC != nil
+	if !slow {
+		close(release)
+	}
 	for i, pc := range round {
 		go func(i int, pc parCmd) {
 			cli := n.clis[pc.conn]
+			t0 := time.Now()
+			defer func() { n.elapsed[i] = time.Since(t0) }()
 			if _, err := cli.Write(respRequest(pc.cmd)); err != nil {
 				done <- result{i, []byte("!WRITE " + err.Error())}
 				return
 			}
+			<-release
 			buf := make([]byte, 1<<20)
 			k, err := cli.Read(buf)
 			if err != nil {
@@ -366,6 +378,15 @@ func (n *node) execRound(round []parCmd) (wires [][]byte, status []string) {
 		case n.heldC <- server.VerifRound{N: len(round), Hold: n.hold}:
 		case <-watchdog:
 			n.dead = true
+		}
+		if slow {
+			// an empty round is taken by the pump only when the held round has been committed and applied
+			select {
+			case n.heldC <- server.VerifRound{N: 0, Hold: 0}:
+			case <-watchdog:
+				n.dead = true
+			}
+			close(release)
 		}
 	} else {
 		select {
@@ -432,6 +453,9 @@ func c14RunCmd(args []string) error {
 	we, ef := mk(args[2] + ".entries")
 	defer ef.Close()
 	defer we.Flush()
+	wt, tf := mk(args[2] + ".timing")
+	defer tf.Close()
+	defer wt.Flush()
 	var w2 *bufio.Writer
 	if nodes {
 		var f2 *os.File
@@ -478,6 +502,13 @@ func c14RunCmd(args []string) error {
 			}
 			fmt.Fprintf(w, "S %d %d %d %s | %s\n", now.Unix(), now.UnixMilli(), pc.conn, strings.Join(pc.hex, " "), out)
 			fmt.Fprintf(ww, "W %s %d %s %s\n", caseName, pc.step, hx([]byte(name)), hx(wires[i]))
+			if held && i < len(nd.elapsed) {
+				sl := 0
+				if nd.slow {
+					sl = 1
+				}
+				fmt.Fprintf(wt, "T %s %d %d %d %d\n", caseName, pc.step, nd.hold.Milliseconds(), nd.elapsed[i].Milliseconds(), sl)
+			}
 		}
 		// every payload handed to publishEntries must be the encoding of one of the round's commands
 		left := append([]parCmd{}, round...)
@@ -575,12 +606,14 @@ func c14RunCmd(args []string) error {
 					fmt.Fprintf(we, "P %s %d %s | %s\n", caseName, step, strings.Join(fs[3:], " "), hx(e))
 				}
 			}
-		case "H":
-			// clusterhold: hold the commit of the following rounds for this many (virtual) milliseconds
+		case "H", "L":
+			// clusterhold: hold the commit of the following rounds for this many (virtual) milliseconds;
+			// L: and let the clients read their replies only after the commit was released
 			flushRound()
 			if nd != nil && len(fs) > 1 {
 				ms, _ := strconv.Atoi(fs[1])
 				nd.hold = time.Duration(ms) * time.Millisecond
+				nd.slow = fs[0] == "L"
 			}
 		case "DUMP":
 			flushRound()
